@@ -8,6 +8,12 @@ CHECKS = {
          "Every history of <=3 (quick) / <=4 (thorough) add-operations over the property's alphabet x all queries is executed against the real IgnoreSet and compared with an independent list-scan model; plus random long multi-token histories. Exhaustive inside the stated bound, sampled outside.",
          "trusts go/token.Pos ordering and the harness' own reference code table (copied from the book)", "DESIGN.md §3 C16"),
 }
+
+SITE_TXT = "Generated multi-package programs (all statement templates x nestings x contexts x annotation mixes, incl. package-level initialisers, constructor-named functions in other packages, decoys, test and excluded files, 6 configurations) are run through the real gogreement binary; every (line, analyzer) is judged against an independent three-valued reference model (MUST code / NEVER / FREE). Exploration: held on the programs generated for the tier and seed, nothing more."
+SITE_NOTE = "trusts the Go toolchain (compile gate), the harness' generator and its reference model (written from the property statements and the book; kept honest by clean sweeps over several seeds and by seeded breakages)"
+for pid, an in (("C01","immutabilitychecker"),("C02","constructorchecker"),("C03","testonlychecker"),("C04","packageonlychecker")):
+    CHECKS[pid] = ("runtime monitor: diagnostics of %s on generated programs vs per-site reference verdicts" % an, SITE_TXT, SITE_NOTE, "DESIGN.md §2.4, §3 "+pid)
+
 PENDING_REASON = "monitor for this property is still under construction in this round (designed in DESIGN.md §3; not claimed until its check is silent on the unchanged tree)"
 def main():
     checks = []
